@@ -63,7 +63,24 @@ def write_inputs(case, workdir):
 
 
 def _is_input(n):
-    return (n.endswith(".cmap") and n[:2] in ("r_", "q_", "c_")) or n.startswith("decoy_")
+    return (n.endswith(".cmap") and n[:2] in ("r_", "q_", "c_")) or n.startswith("decoy_") or n.startswith("pre")
+
+
+# what an earlier, unrelated run may have left at the output paths
+STALE_TEXT = ("# hostname=elsewhere\n# XMAP File Version:\t0.2\n"
+              "#h\t" + "\t".join(fmt.XMAP_COLS) + "\n#f\tint\tint\tint\tfloat\tfloat\tfloat\tfloat\tstring\tfloat\tstring\tfloat\t"
+              "float\tstring\tint\tstring\n"
+              "1\t999999\t999999\t0.0\t10.0\t0.0\t10.0\t+\t1.00\t2M\t11.0\t11.0\tFalse\t1\t(1,1)(2,2)\n"
+              "2\t999999\t999999\t0.0\t10.0\t0.0\t10.0\t+\t1.00\t2M\t11.0\t11.0\tTrue\t1\t(1,1)(2,2)\n")
+
+
+def plant_stale(workdir, out_name):
+    for rel in canonical_names(out_name):
+        p = os.path.join(workdir, rel)
+        if os.path.dirname(p):
+            os.makedirs(os.path.dirname(p), exist_ok=True)
+        with open(p, "w", newline="") as f:
+            f.write(STALE_TEXT)
 
 
 def _clean_outputs(workdir):
@@ -86,9 +103,12 @@ def canonical_names(out_name):
             os.path.normpath(f"{base}_2{ext}"): "out_2.xmap"}
 
 
-def collect_outputs(workdir, out_name):
-    """Every file below workdir that is not an input, keyed by canonical name (or by its own path if unexpected)."""
+def collect_outputs(workdir, out_name, mode=None, stale=False):
+    """Every file below workdir that is not an input, keyed by canonical name (or by its own path if unexpected).
+    With stale=True, planted stale files that this mode does not write and that are still untouched are left out."""
     canon = canonical_names(out_name)
+    writes = {"best": ["out.xmap"], "separate": ["out.xmap", "out_1.xmap"], "joined": ["out.xmap", "out_1.xmap"],
+              "all": ["out.xmap", "out_1.xmap", "out_2.xmap"]}.get(mode, [])
     files = {}
     for root, _, names in os.walk(workdir):
         for n in sorted(names):
@@ -96,7 +116,11 @@ def collect_outputs(workdir, out_name):
             if _is_input(rel) or rel == "stderr.txt":
                 continue
             with open(os.path.join(root, n), "r", newline="", errors="replace") as f:
-                files[canon.get(rel, rel)] = f.read()
+                text = f.read()
+            name = canon.get(rel, rel)
+            if stale and text == STALE_TEXT and name not in writes:
+                continue
+            files[name] = text
     return files
 
 
@@ -159,6 +183,7 @@ def _child(case, ex, workdir, wfd):
         st = sim.SimState(dec, ex.get("profile", "serial"), watch_paths=[out_name])
         st.extra_close.add(wfd)
         st.tapped = []
+        st.fd_margin = ex.get("fd_margin")
         sim.install(st)
 
         from src.args import Args
@@ -176,6 +201,17 @@ def _child(case, ex, workdir, wfd):
 
         XmapReader.writeAlignments = write_tap
 
+        # prelude: other runs earlier in this very process (library use, e.g. sv/segment_indels.py runs COMA in-process)
+        outcome["prelude"] = []
+        for pre in ex.get("prelude") or []:
+            try:
+                Program(Args.parse(build_argv(case, pre))).run()
+                outcome["prelude"].append("ok")
+            except BaseException as e:  # noqa: BLE001
+                outcome["prelude"].append(type(e).__name__)
+        del writes[:]
+        del st.tapped[:]
+        st.round_offset = st.round
         argv = build_argv(case, ex)
         outcome["argv"] = argv
         stream_objs = []
@@ -212,7 +248,7 @@ def _child(case, ex, workdir, wfd):
         outcome["short_reads"] = sum(o.short_reads for o in stream_objs)
         outcome["stream_reads"] = sum(o.reads for o in stream_objs)
         # what a subsequent reader sees the moment run() returned - before any gc, through fresh handles
-        files = collect_outputs(".", ex.get("out_name", "out.xmap"))
+        files = collect_outputs(".", ex.get("out_name", "out.xmap"), ex.get("mode", "best"), bool(ex.get("stale")))
         outcome["files"] = files
         outcome["writes"] = writes
         outcome["tapped"] = st.tapped
@@ -276,6 +312,8 @@ def _child(case, ex, workdir, wfd):
 def run_execution(case, ex, workdir):
     """Fork a world process, run the execution, return its outcome (plus the late view of the files)."""
     _clean_outputs(workdir)
+    if ex.get("stale"):
+        plant_stale(workdir, ex.get("out_name", "out.xmap"))
     rfd, wfd = os.pipe()
     sys.stdout.flush()
     sys.stderr.flush()
@@ -309,7 +347,7 @@ def run_execution(case, ex, workdir):
             pass
     outcome["wall_s"] = time.time() - t0
     # late view: after the world process (and every handle it held) is gone
-    outcome["late_files"] = collect_outputs(workdir, ex.get("out_name", "out.xmap"))
+    outcome["late_files"] = collect_outputs(workdir, ex.get("out_name", "out.xmap"), ex.get("mode", "best"), bool(ex.get("stale")))
     if outcome["status"] == "harness" and outcome.get("exc") and not outcome["exc"].get("tb"):
         outcome["exc"]["tb"] = _stderr(workdir)
     return outcome
